@@ -56,7 +56,7 @@ CHECK_DEADLOCK FALSE
 """)
     r2 = lib.tlc_mc("MC_Query.tla", cfg2, timeout=1200, coverage=False)
     lib.expect_mc_violation(r2, "MC_Query as-built (S07a)", {"AsBuiltComplete"})
-    s = _family(v, "query", {"C07"}, 8 if quick else 120, 40 if quick else 80)
+    s = _family(v, "query", {"C07"}, 8 if quick else 600, 40 if quick else 80)
     v.coverage.update({
         "states": mc["distinct"], "transitions": mc["states"],
         "traces_validated_against_impl": s["scenarios"], "requests_judged": s["requests"],
@@ -114,7 +114,7 @@ CHECK_DEADLOCK FALSE
 """)
     mc = lib.tlc_mc("MC_Rank.tla", cfg, timeout=3000, coverage=False)
     lib.require_mc_ok(mc, "MC_Rank")
-    s = _family(v, "rank", {"C10"}, 8 if quick else 100, 30 if quick else 60)
+    s = _family(v, "rank", {"C10"}, 8 if quick else 300, 30 if quick else 60)
     v.coverage.update({
         "states": mc["distinct"], "transitions": mc["states"],
         "traces_validated_against_impl": s["scenarios"], "requests_judged": s["requests"],
@@ -221,7 +221,7 @@ def run_c11(v):
                        timeout=1200, coverage=False)
         lib.expect_mc_violation(r, f"MC_Paging {name}", inv)
         refuted.append(name)
-    s = _family(v, "paging", {"C11"}, 8 if quick else 100, 20 if quick else 40)
+    s = _family(v, "paging", {"C11"}, 8 if quick else 300, 20 if quick else 40)
     v.coverage.update({
         "states": mc["distinct"], "transitions": mc["states"],
         "traces_validated_against_impl": s["scenarios"], "requests_judged": s["requests"],
@@ -237,7 +237,7 @@ def run_c11(v):
 
 def run_c20(v):
     quick = v.tier == "quick"
-    s = _family(v, "relate", {"C20"}, 8 if quick else 80, 30 if quick else 60)
+    s = _family(v, "relate", {"C20"}, 8 if quick else 200, 30 if quick else 60)
     v.level = "exploration"
     n20 = (s["requests"] + 1) // 2
     v.coverage.update({
